@@ -180,6 +180,7 @@ for nm, c in (("name", "a"), ("assign", "="), ("comma", ","), ("rparen", ")"), (
     LXH(f"lx_arg_or_value_first_{nm}", COMMON + ["C06", "C13"], "quick", f"first char {c!r} (constant) + <= {2 if nm == 'name' else 1} code points; flags symbolic; no checkpoint, look-behind '(' or ','", AOV, 600, stubs=AOS + XID, fixed=c, contexts=["arg_or_value"], mem=10)
 for nm, c in (("assign", "="), ("comma", ","), ("rparen", ")"), ("space", " "), ("quote", '"'), ("slash", "/"), ("percent", "%")):
     LXH(f"lx_arg_or_value_named_{nm}", COMMON + ["C06", "C13"], "quick", f"'a' then {c!r} (constants) + <= 1 code point; the name token and its checkpoint come from the real first step; flags symbolic", AOV, 600, stubs=AOS + XID, fixed="a" + c, contexts=["arg_or_value"], mem=10)
+LXH("lx_arg_or_value_named_mcomment", COMMON + ["C06", "C13"], "quick", "'a' then '%*' (constants) + <= 2 code points: a macro comment after a possible argument name", AOV + ["Lexer::lex_macro_comment"], 600, stubs=AOS + XID, fixed="a%*", contexts=["arg_or_value"], mem=10)
 LXH("lx_maybe_arg_assign", COMMON + ["C13"], "quick", "'a' + <= 2 code points (optional whitespace run, then any char); flags symbolic", ["Lexer::lex_maybe_macro_call_arg_assign", "Lexer::rollback", "Lexer::lex_ws"], 600, fixed="a", contexts=["arg_or_value"], mem=10)
 LXH("lx_maybe_tail_arg", COMMON + ["C13", "C14"], "quick", "<= 2 code points", ["Lexer::lex_maybe_tail_macro_call_arg_value"], 600, contexts=["eval"], mem=10)
 LXH("lx_macro_def_args", COMMON + ["C06", "C13", "C14"], "quick", "<= 3 code points; the three definition-list modes", ["Lexer::lex_maybe_macro_def_args", "Lexer::dispatch_macro_def_arg", "Lexer::lex_macro_def_next_arg_or_default_value", "Lexer::lex_macro_def_identifier"], 600, contexts=["default"], mem=10)
@@ -261,7 +262,7 @@ COST = {
     "lx_preload_default": 126, "lx_preload_in_arg_value": 120, "lx_maybe_args_or_label": 78, "lx_label_sep": 65, "lx_numeric_literal": 50,
     "lx_new_bom": 30, "lx_semi_text_arm_semi": 35, "lx_stat_opts_arm_assign": 35, "lx_eval_string_k2": 600, "lx_default_star": 78, "lx_default_symbol": 103,
     "mac_mnemonic_case_and_shape": 27, "sep_predicate_spec": 20, "mac_is_macro_amp_spec": 25, "flags_roundtrip": 20, "num_int_spec_n3": 48, "num_hex_spec_n3": 300,
-    "lx_arg_or_value_first_": 36, "lx_arg_or_value_named_": 60, "lx_arg_or_value_named_percent": 98, "lx_arg_value_classifier": 176, "lx_char_format_k5": 186,
+    "lx_arg_or_value_first_": 36, "lx_arg_or_value_named_": 60, "lx_arg_or_value_named_percent": 98, "lx_arg_or_value_named_mcomment": 84, "lx_arg_value_classifier": 176, "lx_char_format_k5": 186,
     "lx_default_classifier": 90, "lx_double_quoted_literal_direct": 43, "lx_eval_dispatch_ops": 104, "lx_eval_percent_op": 143, "lx_identifier_k4": 98,
     "lx_macro_call_k3": 99, "lx_macro_def_args": 59, "lx_macro_do_arms": 146, "lx_macro_identifier_k4": 100, "lx_macro_local_global_arms": 36,
     "lx_maybe_arg_assign": 55, "lx_maybe_tail_arg": 21, "lx_name_expr_arms": 69, "lx_semi_text_classifier": 172, "lx_stat_opts_classifier": 168,
